@@ -113,6 +113,7 @@ def handle (ws : List String) : String :=
   | ["junk", _, _] => "total total -"
   | "early" :: rest => Early.handle rest
   | ["earlyfn", expect, region, _, _] => Early.handle [expect, region, "-"]
+  | ["earlyfs", expect, region, _] => Early.handle [expect, region, "-"]
   | "early2" :: rest => Early.handle2 rest
   | "resv" :: rest => Early.handleResv rest
   | "resvtok" :: rest => Early.handleResvTok rest
